@@ -42,6 +42,15 @@ def conditions():
             yield ("or", ("and", p_, c1), ("and", ("not", p_), c2))
             yield ("or", ("and", ("not", p_), c1), ("and", p_, c2))
             yield ("and", ("or", p_, c1), ("or", ("not", p_), c2))
+    # a nested sub-query as an operand, correlated with a variable of the enclosing query or not
+    SUBS = [("eqsub", ("var", "x"), "u", ("cmp", "==", ("attr", "u", "a"), ("attr", "y", "b"))),
+            ("eqsub", ("var", "x"), "u", ("cmp", "<", ("attr", "u", "a"), ("attr", "y", "a"))),
+            ("eqsub", ("var", "x"), "u", ("cmp", "<", ("attr", "u", "a"), ("const", 2))),
+            ("eqsub", ("var", "y"), "u", ("contains", ("attr", "u", "items"), ("attr", "x", "a")))]
+    for sq in SUBS:
+        yield sq
+        yield ("and", sq, A2[1])
+        yield ("and", A2[6], sq)
     # quantified conditionals over u
     QA = [("cmp", "<", ("attr", "x", "a"), ("attr", "u", "a")), ("cmp", "==", ("attr", "x", "b"), ("attr", "u", "b")),
           ("contains", ("attr", "u", "items"), ("attr", "x", "a")), ("cmp", ">=", ("attr", "x", "a"), ("attr", "u", "a"))]
@@ -97,8 +106,10 @@ def work(job):
 
 
 jobs = []
-for wi in range(4):
+for wi in range(len(G.worlds())):
     for cond in itertools.chain([None], conditions()):
+        if wi == 4 and (cond is None or "n" not in G.free_vars(cond)):
+            continue
         for sel in selections(cond):
             jobs.append((wi, cond, sel, False))
             if cond is not None and cond[0] in ("and", "or", "not"):
